@@ -65,6 +65,15 @@ def configs(tier, seed):
         if not q:
             cfgs.append(dict(backend=b, backoff='r10-20', n=3, messages=1, d=1, dd=3, menu={}))
             cfgs.append(dict(backend=b, backoff='r10', n=2, messages=2, d=2, dd=2, menu={}, relay_pool=2, store_pool=2))
+    # restart over several stored messages, the start-up listing read record by record while deliveries (and removals) go on
+    for b in ('disk', 'dict'):
+        cfgs.append(dict(backend=b, backoff='r0x2', n=1, messages=0, prestored=4, prestored_due=0.0, store_pool=1, slow_ops=['load-step', 'get'],
+                         d=1 if q else 2, dd=1, menu={}, max_steps=2000))
+        cfgs.append(dict(backend=b, backoff='r10', n=1, messages=0, prestored=3, prestored_due=0.0, slow_ops=['load-step'], d=2, dd=1, menu={}, max_steps=2000))
+    # a half-written message (envelope file without its meta file, left by a kill) among the stored ones: the others are
+    # still accepted messages and must be resumed
+    for k in (0, 1):
+        cfgs.append(dict(backend='disk', backoff='r10', n=1, messages=0, prestored=3, prestored_due=0.0, damage_meta=k, d=1, dd=2, menu={}))
     nconf = 16 if tier == 'quick' else 32
     cfgs += [{'mode': 'conformance', 'k': k, 'of': nconf, 'take': 1 if tier == 'quick' else 6} for k in range(nconf)]
     return cfgs
